@@ -48,15 +48,37 @@ func genC06(r *kernel.Rand, tier string) *kernel.Scenario {
 	}
 	c["yield_pct"] = int64([]int{0, 30, 100}[r.Intn(3)])
 	c["long_yields"] = int64(r.Intn(2))
-	if (mode == 0 || mode == 1) && nch > 1 && r.Bool(0.4) {
+	if (mode == 0 || mode == 1) && r.Bool(0.4) {
+		if nch < 2 {
+			nch = 2 + r.Intn(2)
+		}
+		if c["accept_pct"] == 100 {
+			c["accept_pct"] = int64([]int{80, 50}[r.Intn(2)])
+		}
 		// eager: the channels are opened concurrently and a proposer issues updates
 		// as soon as its own ProposeChannel has returned, without waiting for the
 		// responder's Accept to return (first updates can overtake the
 		// responder's opening)
 		c["eager_open"] = 1
 	}
+	openers := make([]int, nch)
 	for k := 0; k < nch; k++ {
-		sc.Steps = append(sc.Steps, kernel.St("open", "from", r.Intn(2), "r", int64(r.Uint64()>>2), "app", r.Intn(2), "assets", 1+r.Intn(2)))
+		openers[k] = r.Intn(2)
+		if c["eager_open"] == 1 && k > 0 && r.Bool(0.7) {
+			openers[k] = openers[0] // overlapping openings at the same responder
+		}
+		sc.Steps = append(sc.Steps, kernel.St("open", "from", openers[k], "r", int64(r.Uint64()>>2), "app", r.Intn(2), "assets", 1+r.Intn(2)))
+	}
+	if c["eager_open"] == 1 {
+		// each proposer pays at once on its new channel: the first update can
+		// reach the responder before its side of the opening is complete
+		for k := 0; k < nch; k++ {
+			st := kernel.St("pay", "ch", k, "from", openers[k], "amt", 50+k, "gap_us", 0, "timeout_ms", c["ctx_ms"], "async", 1)
+			if mode == 0 {
+				st.A["token"] = 1
+			}
+			sc.Steps = append(sc.Steps, st)
+		}
 	}
 	np := r.Range(1, 15)
 	for i := 0; i < np; i++ {
